@@ -56,6 +56,23 @@ def check_case(rec, case):
     tmpdir = _TMP
     try:
         inst = exercises.make_instance(rng, case['template'], tmpdir, 'i')
+        if case.get('route') == 'batch':
+            inst = exercises.to_batch(rng, inst, tmpdir, 'i')
+            with open(inst['batch']['file'], encoding='utf8') as f:
+                case = dict(case, batch_text=f.read())
+            # the settings the generator derives from the paragraph + the reference file's header lines
+            o = call(mk.parse_paragraph, inst['batch']['paragraph'])
+            rec.ev('parse_paragraph')
+            if not o.ok:
+                rec.case = case
+                report_failure(rec, o, 'parse_paragraph')
+            else:
+                got, exp = o.value, inst['batch']['expected']
+                bad = sorted(k for k in set(got) | set(exp) if got.get(k) != exp.get(k))
+                if bad:
+                    rec.case = case
+                    rec.violation('parse_paragraph:settings_differ', 'the settings derived from the batch paragraph and the reference file are not the key = value lines written there',
+                                  keys=bad, got={k: got.get(k) for k in bad}, expected={k: exp.get(k) for k in bad})
         case = dict(case, settings={k: v for k, v in inst['settings'].items() if k not in ('templatefile',)}, refs=jsonable(inst['refs']))
         files = {}
         for k, v in inst['settings'].items():
@@ -63,7 +80,7 @@ def check_case(rec, case):
                 with open(v, encoding='utf8') as f:
                     files[k] = f.read()
         case['files'] = files
-        rec.note_case({k: case[k] for k in ('template', 'iseed')}, case['template'], nontrivial(inst['refs']))
+        rec.note_case({k: case[k] for k in ('template', 'iseed', 'route') if k in case}, case['template'], nontrivial(inst['refs']))
         rec.case = case
         o = call(exercises.run_notebook, mk, inst, tmpdir, 'n', _cpu=120)
         rec.ev('notebook:' + case['template'])
@@ -102,12 +119,14 @@ def gen_cases(rec, rng, tier):
             k = max(2, per // 3)
         for _ in range(k):
             yield {'template': t, 'iseed': rng.randrange(10 ** 9)}
+        for _ in range(max(2, k // 3)):
+            yield {'template': t, 'iseed': rng.randrange(10 ** 9), 'route': 'batch'}
 
 
 def run(rec, rng, tier):
     rc = common.replay_case()
     if rc is not None:
-        check_case(rec, {'template': rc['template'], 'iseed': rc['iseed']})
+        check_case(rec, {k: rc[k] for k in ('template', 'iseed', 'route') if k in rc})
         return
     try:
         for case in gen_cases(rec, rng, tier):
